@@ -252,6 +252,10 @@ CHECKS["C04"]["text"] += " Blocks returned wider than one allocation block are t
 CHECKS["C15"]["text"] += " The reply's own giaddr and ciaddr as left by a plugin (as handed, zeroed, another value; same or fresh object): the cascade reads the request."
 CHECKS["C16"]["text"] += " Scenarios S1g/S1h: Release / Confirm / Solicit with two hinted IA_PDs each and crossed hints on a 2-block pool."
 CHECKS["C19"]["text"] += " Prefix pools of /120 and /128 with delegation lengths 129..256."
+# ---- additions of seed round 18
+for k in ("C04","C05","C06","C07"):
+    CHECKS[k]["text"] += " Graph pool 2001:db8:0:140::/58 -> /60 (block length not a multiple of 8 bits, base with bits set in the partial octet)."
+CHECKS["C13"]["text"] += " DHCPv6 requests also arrive inside one and two Relay-Forward layers: every handler still receives the original (relayed) request."
 ALL = ["C%02d" % i for i in range(1, 21)]
 NA_REASON = "check not built yet in this session (planned, see DESIGN.md section 5); will be claimed once its machinery exists"
 m = {
